@@ -630,6 +630,11 @@ def event_graph(fn, role_of, ret_local=0, max_states=40000, branch_role=None, st
                     src_local = rv.ops[0].place.local
                 is_alias = src_local is not None and src_local in aliases
                 is_discr = rv.k == "discr" and rv.place.is_local() and rv.place.local in aliases
+                # payload of the result (`(r as Variant).0`): nested outcomes (Result<Option<..>>) keep being tracked
+                if rv.k in ("use", "copy_for_deref") and rv.ops and rv.ops[0].place is not None and rv.ops[0].place.local in aliases:
+                    pr = rv.ops[0].place.proj
+                    if len(pr) == 2 and isinstance(pr[0], dict) and "v" in pr[0] and isinstance(pr[1], dict) and pr[1].get("f") == 0:
+                        is_alias = True
                 if l == ret_local:
                     retv = abstract_value(fn, s, aliases, src, ev_blocks)
                 if is_alias or is_discr:
@@ -673,6 +678,9 @@ def event_graph(fn, role_of, ret_local=0, max_states=40000, branch_role=None, st
         if t.k == "call":
             if t.dest is not None and t.dest.is_local():
                 aliases.discard(t.dest.local)
+                # `?`: Try::branch(result) keeps the outcome (0 = Continue/Ok, 1 = Break/Err)
+                if t.j.get("callee_name") == "branch" and t.args and t.args[0].place is not None and t.args[0].place.is_local() and t.args[0].place.local in aliases:
+                    aliases.add(t.dest.local)
                 if t.dest.local == ret_local:
                     retv = "call:%s" % short(t.callee)
             if t.target is not None:
